@@ -39,7 +39,7 @@ func init() {
 					u = append(u, fmt.Sprintf("only %d non-trivial cases with consumer timing %s", m.C("nontrivial_"+t), t))
 				}
 			}
-			for _, c := range []string{"opexec_events", "loop_events", "tryeval_event_runs", "failed_applications_seen", "andor_applications_seen", "mode_debug", "mode_report_event", "race_evaluations", "race_events_formatted"} {
+			for _, c := range []string{"opexec_events", "loop_events", "tryeval_event_runs", "failed_applications_seen", "andor_applications_seen", "mode_debug", "mode_report_event", "events_retained_across_evaluations", "race_evaluations", "race_events_formatted"} {
 				if m.C(c) == 0 {
 					u = append(u, c+" = 0")
 				}
@@ -241,6 +241,38 @@ func c12Run(w *W, idx int) {
 		return
 	}
 	fe := opts&OptFE != 0
+	// events retained across later evaluations of the same Expr
+	type held struct {
+		evs  []EvRec
+		desc string
+	}
+	var retained []held
+	defer func() {
+		for _, h := range retained {
+			w.Inc("events_retained_across_evaluations")
+			for _, e := range h.evs {
+				if e.Type == eval.LoopEvent {
+					if len(e.Raw.Stack) != len(e.Stack) {
+						w.Fail("loop-stack-changed-by-later-evaluation", "a LOOP stack received in one evaluation changed length after later evaluations of the same Expr\n%s", h.desc)
+						return
+					}
+					for i := range e.Stack {
+						if !valEq(e.Stack[i], e.Raw.Stack[i]) {
+							w.Fail("loop-stack-changed-by-later-evaluation", "a LOOP stack received in one evaluation was overwritten by a later evaluation of the same Expr: position %d slot %d was %s, now %s\n%s", e.Loop.CurtIdx, i, valTextAny(e.Stack[i]), valTextAny(e.Raw.Stack[i]), h.desc)
+							return
+						}
+					}
+				} else if raw, ok := e.Raw.Data.(eval.OpEventData); ok {
+					for i := range e.Params {
+						if i >= len(raw.Params) || !valEq(raw.Params[i], e.Params[i]) {
+							w.Fail("opexec-params-changed-by-later-evaluation", "OP_EXEC %s arguments received in one evaluation changed after later evaluations of the same Expr\n%s", e.Op.OpName, h.desc)
+							return
+						}
+					}
+				}
+			}
+		}
+	}()
 	for bi, b := range genBindings(r, tree, 3, 0.05) {
 		bound := allBound(tree, b)
 		for _, kind := range []CallKind{CallEval, CallTryEval} {
@@ -272,6 +304,9 @@ func c12Run(w *W, idx int) {
 			if !same {
 				w.Fail("event-mode-changes-result/"+timing, "%s: plain program gives %s, event-mode program gives %s (consumer timing %s)\n%s", what, po, eo, timing, describeCase(src, ecfg, b))
 				continue
+			}
+			if timing != "mutating" {
+				retained = append(retained, held{evs: evs, desc: describeCase(src, ecfg, b)})
 			}
 			ops := opExecOnly(evs)
 			w.Count("opexec_events", int64(len(ops)))
